@@ -1022,7 +1022,7 @@ impl Parser {
 
             Some((pos, Token::Operator(op @ Operator::And))) => {
                 self.next()?;
-                let x = Box::new(unparen(self.unray_expression()?));
+                let x = Box::new(self.unray_expression()?);
                 let opt = ast::Operation { pos, op, x, y: None };
                 Ok(ast::Expression::Operation(opt))
             }
@@ -2309,13 +2309,6 @@ fn extract(expr: ast::Expression, force: bool) -> (Option<ast::Ident>, Option<as
             (None, Some(ast::Expression::Call(call)))
         }
         _ => (None, Some(expr)),
-    }
-}
-
-fn unparen(expr: ast::Expression) -> ast::Expression {
-    match expr {
-        ast::Expression::Paren(x) => *x.expr,
-        _ => expr,
     }
 }
 
